@@ -1108,6 +1108,9 @@ def plan(tier):
         add("ext", dict(N=4, G=3, times="id", flags=LV), [V("known", 0)], 300)
         add("ext", dict(N=3, G=3, times="weak"), [V("known", 1)], 300)
     else:
+        add("chain", dict(N=3, G=2, times="id", flags=AS), [V("unknown", 0), V("known", 1)], 12)
+        add("chain", dict(N=4, G=2, times="id", flags=AS), [V("known", 1)], 40)
+        add("chain", dict(fixed=True), [V("unknown", 0), V("known", 1)], 1)
         # ---- iv ----
         for n in (0, 1, 2, 3):
             for g in (1, 2, 3):
